@@ -20,7 +20,7 @@ func init() {
 		Rule: "a dedicated race-detector suite (GORACE halt_on_error=0, reports counted in the log files, de-duplicated by stack pair with line numbers stripped, attributed by the innermost non-runtime/non-stdlib frame of either access): " +
 			"S1 pipelined concurrent handlers writing on one connection (plain/TLS/StartTLS, back-pressure); S2 parallel StartTLS upgrades with traffic before and after; S3 Run/Ready/Stop racing connect storms; " +
 			"S4 connection teardown of every kind with handlers in flight; S5 the test directory (two of its entries nothing but a DN) served by 8 clients doing bind/search/add (with and without attributes)/modify/delete while the harness calls SetUsers/SetGroups/SetControls/SetTokenGroups/" +
-			"SetAllowAnonymousBind and the getters; S6 the same without Set*; S7 StartTLS upgrades of 2..4 connections with one shared *tls.Config (in every other round one that spells out TLS 1.0/1.1 as its minimum version) followed by Stop with no traffic over the upgraded session; S8 a request pipelined ahead of StartTLS whose slow handler (60..160ms) answers after the upgrade - or, in half of the rounds, says nothing, and one more request follows inside the tunnel once it is done; S9 fresh servers whose very first requests are unrouted and arrive concurrently (one segment, several connections); S10 handlers that answer one request from several goroutines through their one ResponseWriter; S11 connections older than the server's write timeout that keep sending requests one by one while every response write fails. Every third repetition of every scenario runs with Debug-level server loggers. Routes are registered before Run. Each scenario is repeated; a self-test race in harness code proves the detector is live. " +
+			"SetAllowAnonymousBind and the getters; S6 the same without Set*; S7 StartTLS upgrades of 2..4 connections with one shared *tls.Config (in every other round one that spells out TLS 1.0/1.1 as its minimum version) followed by Stop with no traffic over the upgraded session; S8 a request pipelined ahead of StartTLS whose slow handler (60..160ms) answers after the upgrade - or, in half of the rounds, says nothing, and one more request follows inside the tunnel once it is done; S9 fresh servers whose very first requests are unrouted and arrive concurrently (one segment, several connections); S10 handlers that answer one request from several goroutines through their one ResponseWriter; S11 connections older than the server's write timeout that keep sending requests one by one while every response write fails. S5 also has a goroutine that only asks the directory for Port(), Host() and Cert() next to the Set* calls. Every third repetition of every scenario runs with Debug-level server loggers. Routes are registered before Run. Each scenario is repeated; a self-test race in harness code proves the detector is live. " +
 			"distinct_nontrivial = distinct (scenario, repetition, GOMAXPROCS) executions that created concurrent gldap goroutines",
 		Assume: []string{"the race detector generalises each observed execution to every execution with the same synchronisation structure, and says nothing about code the workloads did not run",
 			"getter results are only len()-inspected by the harness: deep reads of shared entries after a getter are the caller's business"},
